@@ -191,7 +191,7 @@ class BinaryConstant(_Constant):
             if m:
                 value = m.group(1)
         try:
-            base64.b64decode(value)
+            base64.b64decode(value, validate=True)
             self.value = value
         except (binascii.Error, TypeError):
             raise ValueError("must contain a base64 encoded string")
